@@ -29,8 +29,10 @@ Definition civil (days : Z) : Z * Z :=
   let m := if mp <? 10 then mp + 3 else mp - 9 in
   (if m <=? 2 then y + 1 else y, m).
 
-Definition ym_impl (ts : Z) : string * string :=
-  let '(y, m) := civil (dir_ts ts / 86400) in (itoa y, pad2 m).
+(* the year / month directory the gpfile writer and reader and walkDB use for a day: year and month of the day's
+   UTC midnight in the PROCESS time zone (off seconds east of UTC) *)
+Definition ym_impl (off : Z) (ts : Z) : string * string :=
+  let '(y, m) := civil ((dir_ts ts + off) / 86400) in (itoa y, pad2 m).
 
 Definition blocks_eqb (a b : blocks) : bool :=
   (fix go (x y : blocks) := match x, y with
@@ -45,8 +47,8 @@ Definition rname_impl (tbl : name_table) (i : string) (ts : Z) (bl : blocks) : s
   | None => (itoa (dir_ts ts) ++ "_?")%string
   end.
 
-Definition mk_names (tbl : name_table) (stage ns : string) : names :=
-  mkNames ym_impl (fun ts => itoa (dir_ts ts)) (rname_impl tbl) stage ns.
+Definition mk_names (off : Z) (tbl : name_table) (stage ns : string) : names :=
+  mkNames (ym_impl off) (fun ts => itoa (dir_ts ts)) (rname_impl tbl) stage ns.
 
 (* ------------------------------------------------------------------ observed states *)
 
@@ -67,7 +69,7 @@ Record point := mkPoint {
 }.
 
 Record case := mkCase {
-  c_dst : fs; c_src : fs; c_opts : opts; c_probe : list string; c_probe_ts : list Z; c_names : name_table;
+  c_dst : fs; c_src : fs; c_opts : opts; c_probe : list string; c_probe_ts : list Z; c_tz : Z; c_names : name_table;
   c_merge_ok : bool; c_ops : list fsop; c_before : nat; c_final : nat;
   c_points : list point; c_states : list ostate
 }.
@@ -187,8 +189,8 @@ Definition nth_state (c : case) (n : nat) : ostate := nth n (c_states c) (mkOSta
 
 (* does the model still describe the code? *)
 Definition corr (c : case) : bool :=
-  let nm := mk_names (c_names c) stage1 "N" in
-  let nm2 := mk_names (c_names c) stage2 "M" in
+  let nm := mk_names (c_tz c) (c_names c) stage1 "N" in
+  let nm2 := mk_names (c_tz c) (c_names c) stage2 "M" in
   let ops := merge_ops nm (c_dst c) (c_src c) (c_opts c) in
   ops_match stage1 (dir_ops ops) (c_ops c)
   && plans_wf_b (c_opts c) (c_dst c) (c_src c)
